@@ -197,6 +197,7 @@ def main():
             calc_ast_hash(s.query_ast)
     datasets = [DS(f"d{i}") for i in range(3)]
     out = []
+    mt_groups = {}  # group -> [(record, ast)]: hashed once more, concurrently, at the end
     sid = None
     if job.get("simid") is not None:
         import random
@@ -260,6 +261,8 @@ def main():
             rec["stage"] = "after-hash"
             rec["hash"] = h1
             rec["canon"] = json.dumps(canon(a), separators=(",", ":"))
+            if b.get("mt") is not None:
+                mt_groups.setdefault(b["mt"], []).append((rec, a))
             # faults between two hashes of the same query object
             again = {}
             if b.get("clock_jump"):
@@ -304,6 +307,24 @@ def main():
             rec["simid_reused"] = sid.reused - reused0
             reused0 = sid.reused
         out.append(rec)
+    if mt_groups:
+        # several threads of this process hash their queries at the same time; after which line
+        # of the library another thread runs is decided by the simulator (sim/preempt.py)
+        import random
+
+        root = os.path.dirname(os.path.dirname(os.path.abspath(__file__)))
+        if root not in sys.path:
+            sys.path.insert(1, root)
+        from sim.preempt import Preempt
+
+        prefix = os.path.join(job["src"], "func_adl") + os.sep
+        for g in sorted(mt_groups):
+            items = mt_groups[g]
+            pr = Preempt(random.Random(job.get("mt_seed", 0) * 1000 + g), job.get("mt_p", 0.2), prefix)
+            res = pr.run([(lambda a=a: calc_ast_hash(a)) for _, a in items])
+            for (rec, _), r in zip(items, res):
+                rec["mt_hash"] = r[1] if r[0] == "ok" else f"raised {type(r[1]).__name__}"
+                rec["mt_switches"] = pr.switches
     sys.stdout.write(json.dumps(out))
 
 
